@@ -17,6 +17,9 @@ def dispatch(prop, tier):
     if prop in ("C01", "C03", "C13", "C14"):
         from . import check_version
         return check_version.run(prop, tier)
+    if prop == "C04":
+        from . import check_argkey
+        return check_argkey.run(prop, tier)
     if prop == "C17":
         from . import check_part
         return check_part.run(prop, tier)
